@@ -23,9 +23,9 @@ def siblings(run) -> Tuple[FuncInfo, FuncInfo, FuncInfo]:
     for n, c in fa.all_calls():
         if not (isinstance(c.func, ast.Attribute) and isinstance(c.func.value, ast.Name) and c.func.value.id == "self"):
             continue
-        for b in fa.facts.branch_facts(n):
-            if isinstance(b.test, ast.Name):
-                pairs.setdefault(b.test.id, {})[b.polarity] = (n, c)
+        for a, p in fa.facts.atoms_at(n):       # atoms: `if not dfs: B else: A` selects the same callees
+            if isinstance(a, ast.Name):
+                pairs.setdefault(a.id, {})[bool(p)] = (n, c)
     for var, d in pairs.items():
         if True in d and False in d:
             t = ci.resolve(pd, d[True][1])
@@ -166,7 +166,8 @@ def collect_actions(run, f: FuncInfo) -> List[Action]:
             elif call_attr(c) == "parse_value":
                 name = "parse:field"
             elif call_attr(c) == "update" and isinstance(c.func, ast.Attribute) and len(c.args) == 1 \
-                    and isinstance(c.args[0], ast.Attribute) and c.args[0].attr == "dependencies":
+                    and any(isinstance(x, ast.Attribute) and x.attr in ("dependencies", "attr_dependencies")
+                            for x in ast.walk(c.args[0])):
                 name = "collect:dependencies"
         if name is None and isinstance(a, ast.Assign) and len(a.targets) == 1 and isinstance(a.targets[0], ast.Subscript) \
                 and unparse(a.targets[0].value) in ret_vars:
